@@ -7,6 +7,11 @@ Three legs on every run (no hooks; everything is observed through compiled progr
   spec  <-> gcc  : Spec/LayoutSpec.lean (`drv_c08 specdecl`, `drv_c08 speclayout`) against the same program compiled by
                    gcc 12 (-std=c11), the independent implementation of C11 6.7.2 and the psABI   -> spec bug, reported as disagreement
   code  <-> gcc  : the property itself                                                           -> corr.violations
+Outcome classes (outcome_leg): declarations at and beyond the edge of the language -- aligned(n) / _Alignas(n) with n = 0, negative,
+not a power of two, 2^28, larger (also >= 2^32), bit-fields of non-integer types (floating, pointer, array, empty and non-empty
+struct/union, void), enum bit-fields -- each compiled alone by `chibicc -cc1` (signals visible) and `gcc -fsyntax-only`; the class
+layout / located diagnostic (which one) / signal is compared model <-> chibicc, spec <-> gcc, chibicc <-> gcc; the accepted ones are then
+compared number by number (sizeof/_Alignof/offsetof) like every other declaration.
 """
 import os, json, itertools, hashlib, copy
 from concurrent.futures import ThreadPoolExecutor
@@ -26,12 +31,19 @@ TRUSTED_BASE = [
     'compared with `drv_c08 layout` on generated declarations (this leg is testing)',
     'specification lean/ChibiVerif/Spec/LayoutSpec.lean (my reading of C11 6.7.2p2, psABI figure 3.1 and 3.1.2, gcc semantics of packed/aligned), '
     'validated against gcc 12.2 on the same generated declarations on every run',
-    'C int modelled as unbounded Int: aggregates of 256 MiB or more (bit count >= 2^31) are outside the theorems (known finding C08-huge-struct-overflow, replayed each run)',
+    'C int: Model/Layout.lean computes in unbounded Int; Model/Layout32.lean redoes struct_decl / union_decl / array_of with every int operation '
+    'explicit (strict: signed overflow is an outcome; wrap: two\'s complement). C08_layout_int_partial / C08_types_int_partial prove both equal to the '
+    'specification below 256 MiB (sizeof + _Alignof + 8 < 2^28), C08_align_bound that the divisors are never 0; at 256 MiB and above (known finding '
+    'C08-huge-struct-overflow, replayed each run) the wrap mode is compared with what the real compiler prints — assumption: the host compiler '
+    'compiles parse.c\'s int arithmetic with wrap-around (the snapshot is built with -O0)',
+    'translator pins of attribute_list aligned(N), declspec _Alignas(constant) (guards translated atom by atom to alignedAttrBad / alignasConstBad), '
+    'struct_members\' bit-field arm and type.c is_integer (kind list regenerated)',
     'gcc 12 + glibc + the host CPU running the printed programs',
 ]
-ASSUMPTIONS = ['bit-field base types are the integer types and _Bool with width <= width of the type (1 for _Bool); enum-typed bit-fields, '
-               'bit-fields wider than their type, long double bit-fields, __attribute__((aligned)) without argument and everything gcc '
-               'rejects are excluded (latitude)',
+ASSUMPTIONS = ['bit-field base types are the integer types, _Bool and enumerated types with width <= width of the type (1 for _Bool); '
+               'bit-fields wider than their type and __attribute__((aligned)) without argument are excluded (latitude); declarations gcc '
+               'rejects for the two modelled constraints (alignment not 0 / a power of two <= 2^28; bit-field of non-integer type) must be '
+               'diagnosed by chibicc too (outcome leg); declarations gcc rejects for other reasons are dropped',
                '_Alignas(n) on members only with n = 0 or n >= the natural alignment (C11 6.7.5p4), never on bit-fields',
                'declspec is modelled for the ten built-in type keywords; qualifiers are exercised only through the compiled programs']
 
@@ -62,10 +74,36 @@ PRIM_SIZE = {k: v[0] for k, v in OBSERVE.items()}
 
 KNOWN_REGIONS = {
     # id -> description; membership is decided by regions_of()
-    'C08-packed-bitfield-straddle': 'packed struct containing a bit-field of non-zero width',
-    'C08-packed-member-alignas': 'packed struct/union with a member that carries _Alignas',
-    'C08-packed-union-bitfield': 'packed union with a named bit-field',
+    'C08-packed-bitfield-straddle': 'packed struct in which some bit-field, put at the next free bit (gcc), crosses a storage-unit boundary of its declared type',
+    'C08-packed-member-alignas': 'packed struct/union with a member that carries _Alignas stricter than 1',
+    'C08-packed-union-bitfield': 'packed union with a named bit-field narrower, in bytes, than its declared type',
+    'C08-huge-struct-overflow': 'aggregate of 256 MiB or more (sizeof >= 2^28 according to gcc / the specification; reached here through large alignment requests)',
 }
+MAX_ALIGN = 1 << 28
+HUGE_ID = 'C08-huge-struct-overflow'
+
+def align_ok(n):
+    """alignment requests gcc accepts: 0 (aligned(0): warning only) and the powers of two up to 2^28"""
+    return n == 0 or (0 < n <= MAX_ALIGN and n & (n - 1) == 0)
+
+def is_int_type(t):
+    return t[0] == 'e' or (t[0] == 'p' and t[1] in BITFIELD_BASES)
+
+def error_kinds(t):
+    """which of the two modelled constraints the tree violates somewhere (incl. inside _Alignas operands): subset of {'align','bitfield'}"""
+    r = set()
+    for a in all_aggregates(t, []):
+        if a[2] is not None and not align_ok(a[2]):
+            r.add('align')
+        for m in a[3]:
+            if any(not isinstance(x, tuple) and not align_ok(x) for x in specs_of(m[0])):
+                r.add('align')
+            if m[1] is not None and not is_int_type(m[3]):
+                r.add('bitfield')
+    return r
+
+def c_int(n):
+    return '(-9223372036854775807-1)' if n == -(1 << 63) else str(n)
 KNOWN_WITNESS = {
     'C08-packed-bitfield-straddle': 's 1 - 3 m 0 - 1 p ty_char m 0 30 1 p ty_int m 0 10 1 p ty_int',
     'C08-packed-member-alignas': 's 1 - 2 m 0 - 1 p ty_char m 8 - 1 p ty_int',
@@ -190,8 +228,40 @@ def all_aggregates(t, out):
         all_aggregates(t[1], out)
     return out
 
+REGION_IDS = ['C08-packed-bitfield-straddle', 'C08-packed-member-alignas', 'C08-packed-union-bitfield']
+_REG_CACHE = {}
+_REG_CTX = [None]
+
+def prefetch_regions(ctx, trees):
+    """known-finding regions of each tree as decided by the Lean predicates the `_partial` theorems exclude
+    (`drv_c08 regions` = Lemmas/LayoutLemmas `Ty.inRegion`): a packed struct counts only if one of its bit-fields really
+    straddles a storage unit where gcc puts it, a packed aggregate only for member _Alignas > 1, a packed union only for a
+    named bit-field narrower (in bytes) than its declared type"""
+    _REG_CTX[0] = ctx
+    new = [k for k in dict.fromkeys(ser(t) for t in trees) if k not in _REG_CACHE]
+    if not new:
+        return
+    out = ctx.driver('regions', ''.join(k + '\n' for k in new)).splitlines()
+    if len(out) != len(new):
+        raise RuntimeError('drv_c08 regions: answer count differs from query count')
+    for k, l in zip(new, out):
+        w = l.split()
+        if not w or w[0] != 'regions':
+            raise RuntimeError('drv_c08 regions: ' + l)
+        r = set() if w[1:] == ['-'] else {REGION_IDS[int(x)] for x in w[1:]}
+        if not r <= regions_syntactic(parse(k.split())):
+            raise RuntimeError(f'drv_c08 regions: {sorted(r)} is not inside the syntactic over-approximation for {k}')
+        _REG_CACHE[k] = r
+
 def regions_of(t):
     """ids of the known-finding regions some aggregate of the tree lies in"""
+    k = ser(t)
+    if k not in _REG_CACHE:
+        prefetch_regions(_REG_CTX[0], [t])
+    return set(_REG_CACHE[k])
+
+def regions_syntactic(t):
+    """syntactic over-approximation of the regions (the regions as they were before they were narrowed): sanity bound only"""
     r = set()
     for a in all_aggregates(t, []):
         if not a[1]:
@@ -226,18 +296,19 @@ def render_spec(x, rng, namer):
     """one `_Alignas(...)`"""
     if isinstance(x, tuple):
         ta = x[1]
-        if ta[0] in 'su' or rng.random() < 0.5:
+        if not getattr(namer, 'force_pre', False) and (ta[0] in 'su' or rng.random() < 0.5):
             an = f'A{namer.tag}_{namer.fresh("")}'
             namer.pre.append('typedef ' + render(ta, an, rng, namer, {}) + ';')
             return f'_Alignas({an})'
         return f'_Alignas({render(ta, "", rng, namer, {})})'
-    return f'_Alignas({x})'
+    return f'_Alignas({c_int(x)})'
 
 class Namer:
     def __init__(self, tag=''):
         self.n = 0
         self.tag = tag
         self.pre = []        # typedefs that must precede the declaration (operands of _Alignas)
+        self.force_pre = False   # attributes before the member list, _Alignas operands inline: diagnostics come in the model's order
     def fresh(self, p='m'):
         self.n += 1
         return f'{p}{self.n}'
@@ -256,7 +327,7 @@ def render(t, name, rng, namer, names, noconst=False):
     if k == 'p':
         return f'{spell(t[1], rng, noconst)} {name}'.rstrip()
     if k == 'e':
-        return f'enum {{ {namer.fresh("E")} }} {name}'.rstrip()
+        return f'enum {{ {namer.fresh("E" + namer.tag + "_")} }} {name}'.rstrip()
     if k == 'ptr':
         fl = t[1]
         return [f'void *{name}', f'int **{name}', f'char (*{name})[3]', f'int (*{name})(void)', f'struct Incomplete *{name}',
@@ -271,11 +342,11 @@ def render(t, name, rng, namer, names, noconst=False):
         if t[1]:
             attrs.append('packed')
         if t[2] is not None:
-            attrs.append(f'aligned({t[2]})')
+            attrs.append(f'aligned({c_int(t[2])})')
         pre = post = ''
         if attrs:
             a = '__attribute__((' + ', '.join(attrs) + '))'
-            if rng.random() < 0.5:
+            if rng.random() < 0.5 or namer.force_pre:
                 pre = ' ' + a
             else:
                 post = ' ' + a
@@ -347,8 +418,9 @@ static void bits(int c, int k, void *p, long n) {
   printf("B %d %d %ld %ld %ld\n", c, k, first, last, cnt); } while (0)
 '''
 
-def make_program(cases, rng):
-    """cases: list of type trees.  Returns (source, per-case info) where info[i] = (names, tree)"""
+def make_program(cases, rng, light=False):
+    """cases: list of type trees.  Returns (source, per-case info) where info[i] = (names, tree).
+    light: only sizeof/_Alignof/offsetof (no object is defined: alignments up to 2^28 and sizes up to 2^28 are fine)"""
     src = [PROLOGUE]
     body = []
     info = []
@@ -368,7 +440,11 @@ def make_program(cases, rng):
             for a in aggregates(t, []):
                 dummy[ser(a)] = {'placed': [[0, 0, 0]] * len(a[3])}
             walk(t, names, dummy, lambda p: 0, 0, '', obs)
-        if obs:
+        if obs and light:
+            for kk, o in enumerate(obs):
+                if o[0] == 'O':
+                    body.append(f'  printf("O {i} {kk} %ld\\n", (long)offsetof(T{i}, {o[1]}));')
+        elif obs:
             body.append(f'  {{ union {{ T{i} v; char pad[sizeof(T{i}) + 16]; }} u;')
             for kk, o in enumerate(obs):
                 if o[0] == 'O':
@@ -423,7 +499,7 @@ def collect(lines):
             d[w[0]][int(w[2])] = (int(w[3]), int(w[4]), int(w[5]))
     return res
 
-def expected(t, names, lay, get):
+def expected(t, names, lay, get, light=False):
     """what the program must print for case t according to a layout source"""
     L = lay[ser(t)] if t[0] in 'su' else lay['#' + ser(t)]
     if L is None:
@@ -435,7 +511,7 @@ def expected(t, names, lay, get):
         for kk, o in enumerate(obs):
             if o[0] == 'O':
                 d['O'][kk] = o[2]
-            else:
+            elif not light:
                 d['B'][kk] = (o[2], o[2] + o[3] - 1, o[3])
                 if o[3] <= 31:
                     d['W'][kk] = d['B'][kk]
@@ -456,12 +532,21 @@ def driver_layouts(ctx, cases):
     text = ''.join(k.lstrip('#') + '\n' for k in keys)
     mo = ctx.driver('layout', text).splitlines()
     so = ctx.driver('speclayout', text).splitlines()
-    if len(mo) != len(keys) or len(so) != len(keys):
+    wo = ctx.driver('layout32', text).splitlines()
+    st = ctx.driver('layout32strict', text).splitlines()
+    if len(mo) != len(keys) or len(so) != len(keys) or len(wo) != len(keys) or len(st) != len(keys):
         raise RuntimeError('drv_c08 layout: answer count differs from query count')
+    # strict mode (signed overflow = outcome) may differ from wrap mode only by reporting an overflow
+    STRICT_OVERFLOW.update(k for k, a, b in zip(keys, wo, st) if a != b and b == 'fail overflow')
+    bad = [(k, a, b) for k, a, b in zip(keys, wo, st) if a != b and b != 'fail overflow']
+    if bad:
+        raise RuntimeError('drv_c08 layout32 / layout32strict differ other than by an overflow: ' + repr(bad[0]))
     model = {k: parse_layout(l, False) for k, l in zip(keys, mo)}
     spec = {k: parse_layout(l, True) for k, l in zip(keys, so)}
-    return model, spec
+    model32 = {k: parse_layout(l, False) for k, l in zip(keys, wo)}      # struct_decl with explicit int arithmetic, wrap-around
+    return model, spec, model32
 
+STRICT_OVERFLOW = set()      # keys (ser) for which the strict int32 model reports signed overflow
 MODEL_GET = lambda p: p[0] * 8 + p[1]
 SPEC_GET = lambda p: p[0]
 
@@ -479,9 +564,9 @@ def first_diff(a, b):
                 return (f'{nm} bit-field #{k} (first bit, last bit, number of bits)', a[f].get(k), b[f].get(k))
     return None
 
-def prepare_batch(ctx, cases, tag):
+def prepare_batch(ctx, cases, tag, light=False):
     """sequential part (uses ctx.rng): the translation unit of a batch"""
-    src, info = make_program(cases, ctx.rng)
+    src, info = make_program(cases, ctx.rng, light)
     return (src, info, tag)
 
 def execute_batch(ctx, prep):
@@ -491,7 +576,7 @@ def execute_batch(ctx, prep):
     c = run_program(ctx, src, tag, 'c') if g[0] else (False, 'not run')
     return g, c
 
-def check_batch(ctx, corr, cases, tag, count_tag, pre=None):
+def check_batch(ctx, corr, cases, tag, count_tag, pre=None, light=False):
     """runs one translation unit of cases through chibicc, gcc, model and spec.  Returns list of problem dicts
     (kind = 'tie' | 'spec' | 'violation'), each with the case."""
     problems = []
@@ -500,7 +585,7 @@ def check_batch(ctx, corr, cases, tag, count_tag, pre=None):
     if pre is not None:
         (src, info, _), ((okg, outg), pre_c) = pre
     else:
-        src, info = make_program(cases, ctx.rng)
+        src, info = make_program(cases, ctx.rng, light)
         okg, outg = run_program(ctx, src, tag, 'g')
         pre_c = None
     if not okg:
@@ -509,7 +594,7 @@ def check_batch(ctx, corr, cases, tag, count_tag, pre=None):
             corr.count('skipped_gcc_rejects')
             return problems
         mid = len(cases) // 2
-        return check_batch(ctx, corr, cases[:mid], tag + 'a', count_tag) + check_batch(ctx, corr, cases[mid:], tag + 'b', count_tag)
+        return check_batch(ctx, corr, cases[:mid], tag + 'a', count_tag, light=light) + check_batch(ctx, corr, cases[mid:], tag + 'b', count_tag, light=light)
     okc, outc = pre_c if pre_c is not None else run_program(ctx, src, tag, 'c')
     if not okc:
         if len(cases) == 1:
@@ -518,16 +603,21 @@ def check_batch(ctx, corr, cases, tag, count_tag, pre=None):
                              'got': outc})
             return problems
         mid = len(cases) // 2
-        return check_batch(ctx, corr, cases[:mid], tag + 'a', count_tag) + check_batch(ctx, corr, cases[mid:], tag + 'b', count_tag)
-    model, spec = driver_layouts(ctx, cases)
+        return check_batch(ctx, corr, cases[:mid], tag + 'a', count_tag, light=light) + check_batch(ctx, corr, cases[mid:], tag + 'b', count_tag, light=light)
+    model, spec, model32 = driver_layouts(ctx, cases)
+    prefetch_regions(ctx, cases)
     rc_, rg_ = collect(outc), collect(outg)
     for i, t in enumerate(cases):
         names, decl, tc = info[i]
         corr.evaluations += 1
         corr.count(count_tag)
         key = ser(t)
-        em = expected(tc, names, model, MODEL_GET)
-        es = expected(tc, names, spec, SPEC_GET)
+        em = expected(tc, names, model, MODEL_GET, light)
+        es = expected(tc, names, spec, SPEC_GET, light)
+        try:
+            em32 = expected(tc, names, model32, MODEL_GET, light)
+        except (KeyError, TypeError):
+            em32 = None
         ic, ig = rc_.get(i), rg_.get(i)
         if t[0] in 'su' and (len(t[3]) >= 2 or any(m[1] is not None or m[0] for m in t[3]) or t[1] or t[2]):
             corr.nontrivial.add(hashlib.sha1(key.encode()).hexdigest())
@@ -537,16 +627,37 @@ def check_batch(ctx, corr, cases, tag, count_tag, pre=None):
                 break
         if any(m[1] is not None for a in aggregates(t, []) for m in a[3]):
             corr.count('has_bitfield')
+        for rid in regions_syntactic(t) - regions_of(t):
+            corr.count('in-scope-since-region-narrowed:' + rid)     # packed, syntactically in the old region, covered by the theorem now
+        # 256 MiB or more (bit count >= 2^31): the region of known finding C08-huge-struct-overflow
+        huge = bool((es and es['S'][0] >= MAX_ALIGN) or (ig and ig['S'] and ig['S'][0] >= MAX_ALIGN))
         d = first_diff(ic, em)
-        if d:
+        if huge:
+            # the Int model does not follow the int overflow of 256 MiB objects (known finding); the int32 model (wrap-around) must
+            d = first_diff(ic, em32)
+            corr.count('tie-huge:int32-model-compared')
+            if d:
+                problems.append({'kind': 'tie', 'case': t, 'decl': decl, 'what': f'int32 model (wrap-around) and chibicc differ on {d[0]} of an aggregate of 256 MiB or more',
+                                 'impl': d[1], 'model': d[2]})
+        elif d:
             problems.append({'kind': 'tie', 'case': t, 'decl': decl, 'what': f'model and chibicc differ on {d[0]}', 'impl': d[1], 'model': d[2]})
+        if any(ser(a) in STRICT_OVERFLOW for a in aggregates(t, [])) or ('#' + ser(t)) in STRICT_OVERFLOW:
+            corr.count('int32-strict:signed-overflow')
+            if es and es['S'][0] < (1 << 27) and es['S'][1] < (1 << 27):
+                problems.append({'kind': 'tie', 'case': t, 'decl': decl, 'what': 'the strict int32 model reports signed overflow for a declaration far below 256 MiB',
+                                 'impl': ic and ic['S'], 'model': 'fail overflow'})
+        if not huge:
+            d32 = first_diff(em, em32)
+            if d32:
+                problems.append({'kind': 'tie', 'case': t, 'decl': decl, 'what': f'Int model and int32 model differ on {d32[0]} below 256 MiB',
+                                 'impl': d32[1], 'model': d32[2]})
         d = first_diff(ig, es)
         if d:
             problems.append({'kind': 'spec', 'case': t, 'decl': decl, 'what': f'Spec.LayoutSpec and gcc differ on {d[0]}', 'gcc': d[1], 'spec': d[2]})
         d = first_diff(ic, ig)
         if d:
             problems.append({'kind': 'violation', 'case': t, 'decl': decl, 'what': f'{d[0]} differs from the psABI (gcc 12)',
-                             'expected': d[2], 'got': d[1]})
+                             'expected': d[2], 'got': d[1], 'huge': huge})
     return problems
 
 # -------------------------------------------------------------------------------------------- generators
@@ -616,13 +727,13 @@ def gen_aggregate(rng, depth, nmem, top=True, kind=None, packed=None):
     kind = kind or ('s' if rng.random() < 0.75 else 'u')
     if packed is None:
         packed = rng.random() < 0.2
-    aligned = rng.choice([1, 2, 4, 8, 16, 32]) if rng.random() < 0.2 else None
+    aligned = rng.choice([0, 1, 2, 4, 8, 16, 32]) if rng.random() < 0.2 else None
     ms = []
     for j in range(nmem):
         x = rng.random()
         if x < 0.35:
-            base = rng.choice(BITFIELD_BASES)
-            maxw = 1 if base == 'ty_bool' else PRIM_SIZE[base] * 8
+            base = rng.choice(BITFIELD_BASES + ['enum'])
+            maxw = 1 if base == 'ty_bool' else 32 if base == 'enum' else PRIM_SIZE[base] * 8
             named = rng.random() < 0.75
             r = rng.random()
             if not named and r < 0.35:
@@ -633,7 +744,7 @@ def gen_aggregate(rng, depth, nmem, top=True, kind=None, packed=None):
                 w = 1
             else:
                 w = rng.randrange(1, maxw + 1)
-            ms.append((0, w, named, ('p', base)))
+            ms.append((0, w, named, ('e',) if base == 'enum' else ('p', base)))
             continue
         mt = gen_member_type(rng, depth)
         if has_flex(mt):
@@ -761,7 +872,7 @@ def gen_cases(ctx):
         seq = [rng.choice(A) for _ in range(3 if rng.random() < 0.7 else 4)]
         kind = 's' if rng.random() < 0.8 else 'u'
         packed = rng.random() < 0.15
-        al = rng.choice([None, None, None, 2, 8, 16])
+        al = rng.choice([None, None, None, 2, 8, 16, 0])
         t = (kind, packed, al, seq)
         if ok_aggregate(t):
             cases.append(('exh3', t))
@@ -1044,7 +1155,6 @@ def alignas_vars_leg(ctx, corr):
                 break
     corr.sample({'_Alignas object': shown[0], 'model': model[0], 'gcc': og[0]})
 
-HUGE_ID = 'C08-huge-struct-overflow'
 def huge_leg(ctx, corr):
     """aggregates of 256 MiB or more: struct_decl counts bits in an int (known finding; outside the Int model)"""
     src = '#include <stddef.h>\nint printf(const char *, ...);\n'
@@ -1072,6 +1182,298 @@ def huge_leg(ctx, corr):
             corr.known_hits.append(HUGE_ID)
         corr.violations.append(v)
 
+# -------------------------------------------------------------------------------------------- outcome classes (edge of the language)
+
+ALIGN_EDGE = sorted(set(
+    [0] + [1 << k for k in range(0, 29)] +
+    [-1, -2, -3, -4, -8, -16, -(1 << 28), -(1 << 31), -(1 << 31) - 1, -(1 << 32), -(1 << 63)] +
+    [3, 5, 6, 7, 9, 10, 12, 15, 17, 24, 48, 96, 100, 1000, 1023, 1025, 4095, 4097, (1 << 28) - 1, (1 << 28) + 1, (1 << 28) + (1 << 27),
+     1 << 29, 1 << 30, (1 << 31) - 1, 1 << 31, (1 << 31) + 1, (1 << 32) - 1, 1 << 32, (1 << 32) + 1, (1 << 32) + 2, (1 << 32) + 8,
+     (1 << 32) + (1 << 28), 1 << 33, 1 << 40, 1 << 62, (1 << 63) - 1]))
+NONINT_BF_TYPES = [('p', 'ty_float'), ('p', 'ty_double'), ('p', 'ty_ldouble'), ('p', 'ty_void'), ('ptr', 0), ('ptr', 1),
+                   ('a', 2, ('p', 'ty_int')), ('a', 0, ('p', 'ty_int')), ('a', 1, ('p', 'ty_char')),
+                   ('s', False, None, []), ('s', False, None, [(0, None, True, ('p', 'ty_int'))]),
+                   ('u', False, None, []), ('u', False, None, [(0, None, True, ('p', 'ty_char'))]),
+                   ('s', True, None, [(0, None, True, ('p', 'ty_short'))])]
+CH = (0, None, True, ('p', 'ty_char'))
+
+def gen_outcome_cases(ctx):
+    """(tag, tree): declarations on both sides of the two constraints, alone and nested"""
+    rng = ctx.rng
+    cases = []
+    edge = list(ALIGN_EDGE)
+    if ctx.thorough:
+        edge = sorted(set(edge) | set(range(-64, 4100)))
+    else:
+        edge = sorted(set(edge) | set(range(-9, 70)))
+    # 1. aligned(n) on struct / union / packed / empty, every edge value
+    for n in edge:
+        cases.append(('aligned-edge', ('s', False, n, [CH])))
+        cases.append(('aligned-edge', ('u', False, n, [CH, (0, None, True, ('p', 'ty_int'))])))
+    for n in ALIGN_EDGE:
+        cases.append(('aligned-edge', ('s', True, n, [CH, (0, None, True, ('p', 'ty_long'))])))
+        cases.append(('aligned-edge-empty', ('s', False, n, [])))
+        cases.append(('aligned-edge-empty', ('u', False, n, [])))
+    # 2. _Alignas(n) on a char member (never below the natural alignment), alone and next to a second specifier
+    for n in edge:
+        cases.append(('alignas-edge', ('s', False, None, [CH, (n, None, True, ('p', 'ty_char'))] if n else [CH, (('L', [0]), None, True, ('p', 'ty_char'))])))
+    for n in ALIGN_EDGE:
+        cases.append(('alignas-edge', ('u', False, None, [(('L', [4, n]), None, True, ('p', 'ty_char'))])))
+        cases.append(('alignas-edge', ('s', True, None, [CH, (('L', [n, 2]), None, True, ('p', 'ty_char'))])))
+    # 3. bit-fields of every non-integer type; enum and integer types for contrast
+    for bt in NONINT_BF_TYPES + [('e',), ('p', 'ty_bool'), ('p', 'ty_uchar'), ('p', 'ty_long')]:
+        wmax = 1 if bt == ('p', 'ty_bool') else 8
+        for (w, named) in ((1, True), (wmax, True), (0, False), (1, False)):
+            if not named and bt[0] in ('a', 'ptr'):
+                continue        # an abstract array/pointer declarator is a syntax error in gcc, not the constraint under test
+            cases.append(('bitfield-type', ('s', False, None, [(0, w, named, bt), CH])))
+            cases.append(('bitfield-type', ('s', False, None, [CH, (0, w, named, bt), CH])))
+            cases.append(('bitfield-type', ('u', False, None, [(0, w, named, bt), CH])))
+            cases.append(('bitfield-type', ('s', True, 8, [CH, (0, w, named, bt)])))
+    for w in range(1, 33):
+        cases.append(('bitfield-enum', ('s', False, None, [CH, (0, w, True, ('e',)), (0, 3, True, ('p', 'ty_uint')), CH])))
+    # 3b. aggregates and arrays of 256 MiB or more: the int arithmetic of struct_decl / array_of wraps (known finding); the int32 model
+    #     (drv_c08 layout32) must print what the binary prints
+    big = lambda n: (0, None, True, ('a', n, ('p', 'ty_char')))
+    I = (0, None, True, ('p', 'ty_int'))
+    for t in [('s', False, None, [big(1 << 28), CH]), ('s', False, None, [big(1 << 27), big(1 << 27), I]),
+              ('s', False, None, [big((1 << 28) - 16), I, CH]), ('s', False, None, [big(1 << 28), (0, 3, True, ('p', 'ty_int')), CH]),
+              ('s', False, None, [big((1 << 28) - 1), (0, 17, True, ('p', 'ty_int')), (0, 0, False, ('p', 'ty_long')), (0, None, True, ('p', 'ty_short'))]),
+              ('s', True, None, [big((1 << 28) - 1), (0, None, True, ('p', 'ty_long')), CH]),
+              ('s', False, 4096, [CH, big((1 << 28) - 4096), I]),
+              ('u', False, None, [big(1 << 28), (0, None, True, ('p', 'ty_long'))]), ('u', False, 64, [big((1 << 29) + 3), CH]),
+              ('a', 1 << 20, ('a', 1 << 12, ('p', 'ty_char'))), ('a', 1 << 16, ('a', 1 << 15, ('p', 'ty_char'))),
+              ('s', False, None, [CH, (0, None, True, ('a', 3, ('s', False, None, [big(1 << 27), I])))]),
+              ('s', False, None, [CH, (0, None, True, ('s', False, None, [big(1 << 28), CH])), CH])]:
+        cases.append(('huge', t))
+    # 4. the same constructs nested: member, array element, anonymous member, _Alignas(type-name) operand, two at once
+    seeds = [t for g, t in cases if g in ('aligned-edge', 'alignas-edge', 'bitfield-type')]
+    nnest = 400 if not ctx.thorough else 4000
+    for _ in range(nnest):
+        inner = clone(rng.choice(seeds))
+        x = rng.random()
+        if x < 0.25:
+            t = ('s', rng.random() < 0.2, None, [CH, (0, None, True, inner), CH])
+        elif x < 0.45:
+            t = ('u', False, rng.choice([None, 8]), [(0, None, True, ('a', rng.choice([1, 3]), inner)), CH])
+        elif x < 0.60:
+            t = ('s', False, None, [CH, (0, None, False, inner)])
+        elif x < 0.80:
+            t = ('s', False, None, [CH, (('T', inner), None, True, ('a', 3, ('p', 'ty_char')))])
+        else:
+            other = clone(rng.choice(seeds))
+            t = ('s', False, rng.choice(ALIGN_EDGE), [(0, None, True, inner), (0, None, True, other)])
+        if has_flex(t):
+            continue
+        cases.append(('nested-edge', t))
+    # 5. ordinary random declarations with one construct pushed to / over the edge
+    nmut = 300 if not ctx.thorough else 3000
+    for _ in range(nmut):
+        t = clone(gen_aggregate(rng, rng.choice([0, 1, 2]), rng.randrange(1, 6)))
+        aggs = aggregates(t, [])
+        a = rng.choice(aggs)
+        idx = None
+        y = rng.random()
+        if y < 0.5:
+            new = (a[0], a[1], rng.choice(ALIGN_EDGE), a[3])
+        else:
+            j = rng.randrange(len(a[3]))
+            aa, w, nm, mt = a[3][j]
+            if y < 0.8:
+                bt = rng.choice(NONINT_BF_TYPES + [('e',)])
+                if bt[0] in ('a', 'ptr'):
+                    nm = True
+                ms = a[3][:j] + [(0, rng.choice([0, 1, 3]) if not nm else rng.choice([1, 3]), nm, bt)] + a[3][j + 1:]
+            else:
+                ms = a[3][:j] + [(rng.choice([x for x in ALIGN_EDGE if x]), None, True, ('p', 'ty_char'))] + a[3][j + 1:]
+            new = (a[0], a[1], a[2], ms)
+        t = replace_node(t, a, new)
+        if not any(m[2] for m in t[3]) and t[3]:
+            t = (t[0], t[1], t[2], t[3] + [CH])
+        cases.append(('mutated-edge', t))
+    return cases
+
+def replace_node(t, old, new):
+    """copy of tree t with the aggregate node `old` (by identity) replaced"""
+    if t is old:
+        return new
+    k = t[0]
+    if k == 'a':
+        return ('a', t[1], replace_node(t[2], old, new))
+    if k == 'f':
+        return ('f', replace_node(t[1], old, new))
+    if k in 'su':
+        return (k, t[1], t[2], [(aa, w, nm, replace_node(mt, old, new)) for (aa, w, nm, mt) in t[3]])
+    return t
+
+def cc1_class(ctx, path):
+    """outcome class of the snapshot's cc1 on one translation unit (run directly: a signal is visible as such)"""
+    rc, o, e = sh([ctx.cc, '-cc1', '-cc1-input', path, '-cc1-output', path + '.s', path], timeout=60)
+    try:
+        os.unlink(path + '.s')
+    except OSError:
+        pass
+    if rc == 0:
+        return 'layout', ''
+    if rc < 0 or rc >= 128:
+        return f'signal {-rc if rc < 0 else rc - 128}', e.strip()[-200:]
+    located = re.search(r'^[^\n:]+:\d+: ', e, re.M) is not None
+    if 'alignment must be a power of two no larger than 2^28' in e and located:
+        return 'diag align', e.strip()[-200:]
+    if 'bit-field has non-integer type' in e and located:
+        return 'diag bitfield', e.strip()[-200:]
+    if 'field has incomplete type' in e and located:
+        return 'diag incomplete', e.strip()[-200:]
+    return 'diag other' if located else f'exit {rc} without a located diagnostic', e.strip()[-200:]
+
+GCC_SAME_RULE = re.compile(r'requested alignment|has invalid type|declared void')
+
+def gcc_class(ctx, path):
+    rc, o, e = sh(['gcc', '-std=c11', '-w', '-fsyntax-only', path], timeout=60)
+    if rc == 0:
+        return 'layout', ''
+    first = next((l for l in e.splitlines() if 'error' in l), e.strip()[-200:])
+    return ('diag' if GCC_SAME_RULE.search(e) else 'diag other'), first[-200:]
+
+def atomic_bitfield_probe(ctx, corr):
+    """struct_members' second guard (`mem->ty->is_atomic`): the model has no _Atomic types, so this site is watched directly:
+    an _Atomic-qualified bit-field is a constraint violation for gcc ("bit-field has atomic type") and must be a located
+    diagnostic in chibicc; an _Atomic member that is not a bit-field is accepted by both"""
+    rng = ctx.rng
+    srcs = []
+    for base in ('int', 'unsigned', '_Bool', 'char', 'short', 'long', 'unsigned long', 'signed char'):
+        w = 1 if base == '_Bool' else rng.choice([1, 3, 7])
+        srcs += [(f'struct S {{ _Atomic {base} x : {w}; char c; }};', True), (f'union U {{ char c; {base} _Atomic x : {w}; }};', True),
+                 (f'struct S {{ char c; _Atomic({base}) : 0; char d; }};', True),
+                 (f'typedef _Atomic {base} A; struct S {{ char c; A x : {w}; }};', True),
+                 (f'struct __attribute__((packed)) S {{ char c; _Atomic {base} x : {w}; }};', True),
+                 (f'struct S {{ char c; _Atomic {base} x; }};', False), (f'struct S {{ {base} x : {w}; _Atomic {base} y; }};', False)]
+    paths = []
+    for i, (src, _) in enumerate(srcs):
+        path = os.path.join(ctx.scratch, f'atb{i}.c')
+        with open(path, 'w') as f:
+            f.write(src + '\n')
+        paths.append(path)
+    with ThreadPoolExecutor(max_workers=NPROC) as ex:
+        rc_ = list(ex.map(lambda pth: sh([ctx.cc, '-cc1', '-cc1-input', pth, '-cc1-output', pth + '.s', pth], timeout=60), paths))
+        rg_ = list(ex.map(lambda pth: sh(['gcc', '-std=c11', '-w', '-fsyntax-only', pth], timeout=60), paths))
+    for (src, bad), (rc, o, e), (rg, og, eg) in zip(srcs, rc_, rg_):
+        corr.evaluations += 1
+        corr.count('atomic-bitfield-probe')
+        if (rg != 0) != bad or (bad and 'atomic type' not in eg):
+            corr.disagreements.append({'kind': 'atomic bit-field probe: gcc does not behave as assumed', 'input': src, 'gcc rc': rg, 'gcc': eg.strip()[-200:]})
+            continue
+        located = re.search(r'^[^\n:]+:\d+: ', e, re.M) is not None
+        ok = (rc == 1 and located and 'bit-field has atomic type' in e) if bad else rc == 0
+        if not ok:
+            corr.violations.append({'what': 'an _Atomic-qualified bit-field is not answered with the located diagnostic' if bad else
+                                            'a declaration with an _Atomic member that gcc accepts is rejected',
+                                    'input': src, 'expected': 'located diagnostic (gcc: bit-field has atomic type)' if bad else 'accepted',
+                                    'got': f'rc={rc} ' + e.strip()[-200:]})
+            return
+
+def has_huge_node(ctx, t):
+    """does some aggregate of the tree (operands of _Alignas included) have sizeof >= 2^28 according to the specification"""
+    nodes = all_aggregates(t, [])
+    out = ctx.driver('speclayout', ''.join(ser(a) + '\n' for a in nodes)).splitlines()
+    return any(l.startswith('ok ') and int(l.split()[1]) >= MAX_ALIGN for l in out)
+
+def outcome_leg(ctx, corr):
+    rng = ctx.rng
+    atomic_bitfield_probe(ctx, corr)
+    cases = gen_outcome_cases(ctx)
+    trees = [t for _, t in cases]
+    text = ''.join(ser(t) + '\n' for t in trees)
+    model = ctx.driver('layout', text).splitlines()
+    spec = ctx.driver('speclayout', text).splitlines()
+    model32 = ctx.driver('layout32', text).splitlines()
+    if len(model) != len(trees) or len(spec) != len(trees) or len(model32) != len(trees):
+        raise RuntimeError('drv_c08 layout: answer count differs from query count (outcome leg)')
+    decls = []
+    for i, t in enumerate(trees):
+        namer = Namer(f'o{i}')
+        kinds = error_kinds(t)
+        namer.force_pre = bool(kinds)
+        d = render(clone(t), 'T', rng, namer, {})
+        src = '\n'.join(namer.pre + [f'typedef {d};']) + '\n'
+        path = os.path.join(ctx.scratch, f'oc{i}.c')
+        with open(path, 'w') as f:
+            f.write(src)
+        decls.append((path, src.strip().replace('\n', ' ')))
+    with ThreadPoolExecutor(max_workers=NPROC) as ex:
+        rc_ = list(ex.map(lambda pd: cc1_class(ctx, pd[0]), decls))
+        rg_ = list(ex.map(lambda pd: gcc_class(ctx, pd[0]), decls))
+    accepted = []
+    nviol = 0
+    for i, t in enumerate(trees):
+        corr.evaluations += 1
+        key = ser(t)
+        kinds = error_kinds(t)
+        m = model[i].split('|')[0].split()
+        mclass = 'layout' if m[0] == 'ok' else ' '.join(m[:2]) if m[0] == 'diag' else 'signal 8' if m[:2] == ['fail', 'divzero'] else model[i]
+        sclass = 'layout' if spec[i].startswith('ok') else 'diag' if spec[i].startswith('diag') else spec[i]
+        (cclass, cerr), (gclass, gerr) = rc_[i], rg_[i]
+        decl = decls[i][1]
+        corr.count('outcome:' + cclass)
+        corr.count('gen:' + cases[i][0])
+        corr.nontrivial.add('oc:' + hashlib.sha1(key.encode()).hexdigest())
+        # python's own reading of the two constraints against the specification (three opinions on the class)
+        if (sclass == 'diag') != bool(kinds):
+            corr.disagreements.append({'kind': 'outcome class: Spec.specAccepted vs the generator', 'case': key, 'spec': spec[i], 'generator': sorted(kinds)})
+            continue
+        # model <-> chibicc  (which diagnostic: only when the declaration violates one constraint only; else the class)
+        same = (mclass == cclass) if len(kinds) <= 1 else (mclass.split()[0] == cclass.split()[0])
+        m32 = model32[i].split('|')[0].split()
+        m32class = 'layout' if m32[0] == 'ok' else ' '.join(m32[:2])
+        if mclass != m32class and not has_huge_node(ctx, t):
+            corr.disagreements.append({'kind': 'outcome class Int model vs int32 model below 256 MiB', 'case': key, 'model': model[i], 'int32 model': model32[i]})
+        if not same and mclass == 'layout' and has_huge_node(ctx, t):
+            # the Int model does not follow the int overflow of 256 MiB objects (known finding); the int32 model (wrap-around) must
+            corr.count('tie-huge:int32-model-compared')
+            if m32class != cclass:
+                corr.disagreements.append({'kind': 'outcome class int32 model (wrap-around) vs chibicc', 'case': key, 'decl': decl,
+                                           'model': model32[i], 'impl': cclass, 'stderr': cerr})
+        elif not same:
+            corr.disagreements.append({'kind': 'outcome class model vs chibicc', 'case': key, 'decl': decl, 'model': model[i], 'impl': cclass, 'stderr': cerr})
+        # spec <-> gcc
+        if gclass == 'diag other' and sclass == 'layout':
+            corr.count('skipped_gcc_rejects')       # rejected for a reason outside the two constraints: latitude
+            continue
+        if (sclass == 'layout') != (gclass == 'layout'):
+            corr.disagreements.append({'kind': 'outcome class spec vs gcc', 'case': key, 'decl': decl, 'spec': spec[i], 'gcc': gclass, 'gcc says': gerr})
+            continue
+        # chibicc <-> gcc
+        if (cclass == 'layout') != (gclass == 'layout') or cclass.startswith('signal') or cclass.startswith('exit'):
+            if gclass == 'layout' and cclass.startswith('diag') and has_huge_node(ctx, t):
+                # some aggregate of the declaration has 256 MiB or more: its int size overflowed ("field has incomplete type" for a negative size)
+                corr.count('known-region-mismatch:' + HUGE_ID)
+                if not any(v.get('known_id') == HUGE_ID and v.get('leg') == 'outcome' for v in corr.violations):
+                    corr.violations.append({'what': 'a declaration with an aggregate of 256 MiB or more is rejected', 'input': decl, 'case': key,
+                                            'expected': 'layout as by gcc', 'got': cclass + ' ' + cerr, 'known_id': HUGE_ID, 'leg': 'outcome'})
+                continue
+            nviol += 1
+            if nviol <= 3:
+                what = ('cc1 is killed by a signal while laying out a declaration' if cclass.startswith('signal') else
+                        'a declaration gcc rejects (alignment / bit-field type constraint) is accepted without a diagnostic' if cclass == 'layout' else
+                        'a declaration gcc accepts is rejected' if gclass == 'layout' else 'rejected without a located diagnostic')
+                corr.violations.append({'what': what, 'input': decl, 'case': key,
+                                        'expected': 'layout as by gcc' if gclass == 'layout' else 'located diagnostic (gcc: ' + gerr + ')',
+                                        'got': cclass + (' ' + cerr if cerr else '')})
+            else:
+                corr.count('further-violations-not-listed')
+            continue
+        if cclass == 'layout':
+            accepted.append(t)
+    corr.sample({'outcome-class case': decls[len(decls) // 3][1], 'chibicc': rc_[len(decls) // 3][0], 'gcc': rg_[len(decls) // 3][0],
+                 'model': model[len(decls) // 3]})
+    # the accepted ones: numbers (sizeof/_Alignof/offsetof; no object is defined, so alignments and sizes up to 2^28 are fine)
+    problems = []
+    acc = [t for t in dict((ser(t), t) for t in accepted).values() if t[0] not in 'su' or not t[3] or ok_aggregate(t)]
+    B = 200
+    for bi in range(0, len(acc), B):
+        problems += check_batch(ctx, corr, acc[bi:bi + B], f'ocb{bi}', 'outcome-accepted', light=True)
+    report(ctx, corr, problems, shrink_ok=False)
+
 # -------------------------------------------------------------------------------------------- entry points
 
 def report(ctx, corr, problems, shrink_ok=True, exempt=()):
@@ -1084,7 +1486,7 @@ def report(ctx, corr, problems, shrink_ok=True, exempt=()):
         elif p['kind'] == 'spec':
             corr.disagreements.append({'kind': 'layout spec vs gcc', 'case': s, 'decl': p['decl'], 'what': p['what'], 'gcc': p['gcc'], 'spec': p['spec']})
         else:
-            regs = sorted(regions_of(t)) if s not in exempt else []   # repaired defects kept in the corpus are plain violations if they come back
+            regs = sorted(regions_of(t) | ({HUGE_ID} if p.get('huge') else set())) if s not in exempt else []   # repaired defects kept in the corpus are plain violations if they come back
             v = {'what': p['what'], 'input': p['decl'], 'case': s, 'expected': p['expected'], 'got': p['got']}
             if regs:
                 # inside a known-finding region: one entry for the listed witness, one for the first other declaration of the region;
@@ -1172,11 +1574,18 @@ def correspond(ctx, corr):
                  'reachable named member and the set bits after assigning all-ones to each bit-field of a zeroed object; the numbers are compared '
                  'with Model/Layout (tie), Spec/LayoutSpec vs gcc (spec validation) and chibicc vs gcc (the property). '
                  'non-trivial = aggregate with >= 2 members or a bit-field/_Alignas/attribute, or a specifier sequence of >= 2 keywords, or a rejected sequence; '
-                 'distinct by canonical type description.')
+                 'distinct by canonical type description. '
+                 '(3) outcome classes: aligned(n) / _Alignas(n) over an edge set of n (0, 2^0..2^28, negatives, non-powers, up to 2^63-1; every n in '
+                 '-9..69, thorough -64..4099), bit-fields of every non-integer kind of type and of enum/integer types, the same nested / inside _Alignas '
+                 'operands / in random declarations, 13 declarations of 256 MiB or more, _Atomic bit-fields: each compiled alone by cc1 (signals visible) '
+                 'and gcc -fsyntax-only; class compared model vs chibicc, spec vs gcc, chibicc vs gcc; accepted ones compared number by number; '
+                 'Int model = int32 model (wrap) = int32 model (strict) below 256 MiB, int32 model (wrap) = chibicc above.')
+    _REG_CTX[0] = ctx
     specifier_leg(ctx, corr)
     stddef_leg(ctx, corr)
     huge_leg(ctx, corr)
     alignas_vars_leg(ctx, corr)
+    outcome_leg(ctx, corr)
     cases = gen_cases(ctx)
     B = 150
     problems = []
@@ -1206,9 +1615,56 @@ def correspond(ctx, corr):
                                          f'{2 if not ctx.thorough else 4}; all member sequences of length <= 2 over the alphabet; every bit-field base x width '
                                          + ('(all widths)' if ctx.thorough else '(all widths <= 16, boundary widths above)'))
 
+def search_without_model(ctx):
+    """the Lean side does not build (e.g. a regenerated constant broke a lemma the driver needs): chibicc against gcc alone.
+    (1) outcome classes over the edge set (expectation: gcc); (2) sizeof/_Alignof/offsetof/bit images of random declarations,
+    known-finding regions decided by the syntactic over-approximation"""
+    rng = ctx.rng
+    cases = gen_outcome_cases(ctx)
+    decls = []
+    for i, (g, t) in enumerate(cases):
+        namer = Namer(f's{i}')
+        namer.force_pre = bool(error_kinds(t))
+        d = render(clone(t), 'T', rng, namer, {})
+        path = os.path.join(ctx.scratch, f'so{i}.c')
+        with open(path, 'w') as f:
+            f.write('\n'.join(namer.pre + [f'typedef {d};']) + '\n')
+        decls.append((path, ' '.join(namer.pre + [f'typedef {d};'])))
+    with ThreadPoolExecutor(max_workers=NPROC) as ex:
+        rc_ = list(ex.map(lambda pd: cc1_class(ctx, pd[0]), decls))
+        rg_ = list(ex.map(lambda pd: gcc_class(ctx, pd[0]), decls))
+    for (g, t), (path, decl), (cclass, cerr), (gclass, gerr) in zip(cases, decls, rc_, rg_):
+        if g == 'huge' or gclass == 'diag other':
+            continue
+        if cclass.startswith('signal') or cclass.startswith('exit') or (cclass == 'layout') != (gclass == 'layout'):
+            if gclass == 'layout' and cclass == 'diag incomplete':
+                continue        # wrapped size of a 256 MiB aggregate (known finding)
+            return {'what': 'outcome class differs from gcc (cc1 run directly on the declaration alone)', 'input': decl, 'case': ser(t),
+                    'expected': gclass + ' ' + gerr, 'got': cclass + ' ' + cerr}
+    for rnd in range(10):
+        trees = [gen_aggregate(rng, rng.choice([0, 1, 2, 3]), rng.randrange(1, 9)) for _ in range(150)]
+        src, info = make_program(trees, rng)
+        okg, outg = run_program(ctx, src, f'swm{rnd}', 'g')
+        if not okg:
+            continue
+        okc, outc = run_program(ctx, src, f'swm{rnd}', 'c')
+        if not okc:
+            continue
+        rcx, rgx = collect(outc), collect(outg)
+        for i, t in enumerate(trees):
+            d = first_diff(rcx.get(i), rgx.get(i))
+            if d and not regions_syntactic(t):
+                return {'what': f'{d[0]} differs from the psABI (gcc 12)', 'input': info[i][1], 'case': ser(t), 'expected': d[2], 'got': d[1]}
+    return None
+
 def search(ctx, broken, corr):
     """proof or tie broke and the standard run saw no violation: a longer random stream, chibicc vs gcc only"""
     rng = ctx.rng
+    _REG_CTX[0] = ctx
+    try:
+        ctx.driver('regions', 'e\n')
+    except Exception:
+        return search_without_model(ctx)
     for rnd in range(20):
         cases = [gen_aggregate(rng, rng.choice([0, 1, 2, 3]), rng.randrange(1, 9)) for _ in range(200)]
         ps = check_batch(ctx, Corr(), cases, f'srch{rnd}', 'search')
@@ -1221,11 +1677,32 @@ def search(ctx, broken, corr):
     return None
 
 def replay(ctx, corr, path):
+    _REG_CTX[0] = ctx
     payload = json.load(open(path))
     case = payload.get('case')
     if case:
         t = parse(case.split())
-        ps = check_batch(ctx, corr, [t], 'replay', 'replay')
+        # outcome class first (a declaration alone, cc1 run directly): signal / accepted although gcc rejects / rejected although gcc accepts
+        namer = Namer('r')
+        namer.force_pre = bool(error_kinds(t))
+        d = render(clone(t), 'T', ctx.rng, namer, {})
+        path = os.path.join(ctx.scratch, 'replay_oc.c')
+        with open(path, 'w') as f:
+            f.write('\n'.join(namer.pre + [f'typedef {d};']) + '\n')
+        (cclass, cerr), (gclass, gerr) = cc1_class(ctx, path), gcc_class(ctx, path)
+        corr.evaluations += 1
+        print(f'replay: outcome class chibicc={cclass} gcc={gclass}')
+        if (cclass == 'layout') != (gclass == 'layout') or cclass.startswith('signal') or cclass.startswith('exit'):
+            if not (gclass == 'layout' and cclass.startswith('diag') and has_huge_node(ctx, t)):
+                corr.violations.append({'what': 'outcome class differs from gcc', 'input': f'typedef {d};', 'case': case,
+                                        'expected': gclass + ' ' + gerr, 'got': cclass + ' ' + cerr})
+            return
+        if gclass != 'layout':
+            return
+        sl = ctx.driver('speclayout', ser(t) + '\n').split()
+        # big objects: sizeof/_Alignof/offsetof only (the full probe defines an object of the type and walks its bits)
+        light = sl[0] == 'ok' and (int(sl[1]) > (1 << 20) or int(sl[2]) > 64)
+        ps = check_batch(ctx, corr, [t], 'replay', 'replay', light=light)
         report(ctx, corr, ps, shrink_ok=False)
         print('replay:', '; '.join(f"{p['kind']}: {p['what']}" for p in ps) or 'declaration now laid out as by gcc')
         return
@@ -1255,12 +1732,26 @@ MANIFEST = {
                   'rule and never divide by zero; (C08_types_partial) the same for whole nested type descriptions (anonymous members, arrays, '
                   'pointers, flexible last member, any depth); (C08_allocation_rule, C08_struct_invariants) the rule means what the psABI says: '
                   'least aligned offset, bit-field inside one storage unit, members ordered and disjoint, size the least multiple of the alignment '
-                  'covering the members. PARTIAL: layout theorems exclude three regions inside __attribute__((packed)) that are known findings '
-                  '(packed struct with a non-zero-width bit-field, packed aggregate with member _Alignas, packed union with a named bit-field), and '
+                  'covering the members; (C08_aligned_exact, C08_aligned_zero, C08_aligned_rejected, C08_alignas) aligned(n) and _Alignas(n) for '
+                  'EVERY integer n: 0 requests nothing, 2^0..2^28 request themselves, everything else is the located diagnostic (guards regenerated '
+                  'from parse.c, int64 two\'s complement bit test proved to be the power-of-two test); (C08_bitfield_type) bit-fields of exactly the '
+                  'integer/enumerated types are admitted, every other declared type is the located diagnostic; (C08_outcome_class) a description '
+                  'gets a layout iff the specification (gcc\'s constraints) accepts it, else one of the two diagnostics; (C08_no_divByZero) no type '
+                  'description at all reaches a zero divisor; (C08_align_bound) every alignment is <= 2^28, so the int products mem->align * 8 of '
+                  'struct_decl cannot wrap to 0; (C08_layout_int_partial, C08_types_int_partial) struct_decl / union_decl / array_of redone with every '
+                  'C int operation explicit (Model/Layout32: strict = signed overflow is an outcome, wrap = two\'s complement) give the same '
+                  'psABI layouts for everything below 256 MiB, in both modes, so the unbounded-Int idealisation is exact there. PARTIAL: layout theorems exclude three narrow regions inside __attribute__((packed)) that are known '
+                  'findings (packed struct in which a bit-field really straddles a storage unit where gcc puts it; packed aggregate with member '
+                  '_Alignas > 1; packed union with a named bit-field narrower in bytes than its type), and '
                   'aggregates of 256 MiB or more (int overflow, known finding); full statements are kept and refuted by kernel-checked witnesses. '
                   'Tie on every run: the model is executed against programs compiled by the snapshot compiler (sizeof/_Alignof/offsetof and the '
                   'bits each bit-field reads and writes) on thousands of generated declarations; the specification is validated against gcc 12 on '
-                  'the same declarations; chibicc is compared with gcc directly.',
+                  'the same declarations; chibicc is compared with gcc directly. Declarations at and beyond the edge (aligned/_Alignas 0, negative, '
+                  'non-powers of two, 2^28, >= 2^32; bit-fields of floating/pointer/array/struct/union/void type, enum bit-fields) are compiled one '
+                  'by one with cc1 run directly: the outcome class layout / which diagnostic / signal is compared model vs chibicc, spec vs gcc, '
+                  'chibicc vs gcc. The known-finding regions the check uses are the Lean predicates themselves (drv_c08 regions). '
+                  'Declarations of 256 MiB or more (known finding) are compared with the wrap-around int32 model: it reproduces the numbers '
+                  '(negative sizeof/offsetof, sizeof 0 for a 4 GiB array) and the "field has incomplete type" diagnostics of the real compiler.',
     'level_note': 'Trusted: Lean kernel (propext, Classical.choice, Quot.sound; audited each run); tools/extract/declspec.py (regex over exact '
                   'shapes, fails on any other); the hand model of the loops (tied by differential execution, which is testing); Spec/LayoutSpec.lean '
                   '(my reading of C11 6.7.2p2 and psABI 3.1.2, validated against gcc 12 each run); C int as unbounded Int. Not modelled: the '
